@@ -234,6 +234,10 @@ pub struct World {
     /// the probe panics when one request is re-issued more often than this (a layer looping inside
     /// one poll cannot be stopped by any scheduler); long-outage scenarios raise it
     pub runaway_cap: AtomicU64,
+    /// non-zero: the standard caller actors poll their call future under catch_unwind and, when it
+    /// panics, keep the dead future around for this many scheduling steps before dropping it (a
+    /// caller that catches the panic, e.g. with FutureExt::catch_unwind on a pinned future)
+    pub keep_panicked_call: AtomicU64,
 }
 
 impl World {
@@ -248,6 +252,7 @@ impl World {
             ready_faults: AtomicU64::new(0),
             oneshot_style: AtomicU64::new(0),
             runaway_cap: AtomicU64::new(50_000),
+            keep_panicked_call: AtomicU64::new(0),
             st: Mutex::new(Inner {
                 log: Vec::new(),
                 seq: 0,
